@@ -288,6 +288,44 @@ func runC07(c *Ctx) {
 							}
 						}
 					}
+					// the variable run through a helper that hands back the slice it was given, or a truncation of it
+					if hc, isCall := st.Val.(*ssa.Call); isCall {
+						if h := w.helperOf(hc); h != nil && h.Signature.Results().Len() == 1 {
+							pj := -1
+							for j, arg := range hc.Call.Args {
+								if ld, isLd := arg.(*ssa.UnOp); isLd && ld.Op == token.MUL {
+									ad := ld.X
+									if fv, ok := ad.(*ssa.FreeVar); ok {
+										if b := freeVarBinding(fv); b != nil {
+											ad = b
+										}
+									}
+									if ad == ssa.Value(a) {
+										pj = j
+									}
+								}
+							}
+							okHelper := pj >= 0
+							for _, r := range liveReturns(h) {
+								for _, lf := range w.leaves(r.Results[0], r, false) {
+									base := strip(lf.Val)
+									for {
+										sl, isSl := base.(*ssa.Slice)
+										if !isSl {
+											break
+										}
+										base = strip(sl.X)
+									}
+									if pj < 0 || base != ssa.Value(h.Params[pj]) {
+										okHelper = false
+									}
+								}
+							}
+							if okHelper {
+								continue
+							}
+						}
+					}
 					if !isListing(st.Val, depth+1) {
 						return false
 					}
